@@ -1,6 +1,7 @@
 package main
 
 import (
+	"golang.org/x/tools/go/ssa"
 	"encoding/json"
 	"flag"
 	"fmt"
@@ -298,6 +299,45 @@ func checkProp(P *Prog, prop, tier string, perObl int, verbose, keep bool, t0 ti
 			keys = append(keys, k)
 		}
 	}
+	// modular closure: the proof of a function uses the contracts of its
+	// callees, so a property's check also verifies every (non-assumed) callee
+	// under contract, transitively
+	seen := map[string]bool{}
+	for _, k := range keys {
+		seen[k] = true
+	}
+	for i := 0; i < len(keys); i++ {
+		fn := P.fnByKey[keys[i]]
+		if fn == nil {
+			continue
+		}
+		var visit func(f *ssa.Function)
+		visit = func(f *ssa.Function) {
+			for _, b := range f.Blocks {
+				for _, in := range b.Instrs {
+					if c, ok := in.(ssa.CallInstruction); ok {
+						if callee := c.Common().StaticCallee(); callee != nil {
+							ck := P.funcKey(callee)
+							if cs := P.specs.Funcs[ck]; cs != nil && !cs.Assume && !seen[ck] && !strings.Contains(ck, "#") {
+								seen[ck] = true
+								keys = append(keys, ck)
+							} else if cs == nil && callee.Pkg != nil && P.fnByKey[ck] != nil && !seen["~"+ck] {
+								// spec-less helper that is inlined: look through it
+								seen["~"+ck] = true
+								visit(callee)
+							}
+						}
+					}
+					if mc, ok := in.(*ssa.MakeClosure); ok {
+						if af, ok := mc.Fn.(*ssa.Function); ok {
+							visit(af)
+						}
+					}
+				}
+			}
+		}
+		visit(fn)
+	}
 	sort.Strings(keys)
 	work, _ := os.MkdirTemp("", "govc-"+prop)
 	if !keep {
@@ -314,6 +354,13 @@ func checkProp(P *Prog, prop, tier string, perObl int, verbose, keep bool, t0 ti
 		mu.Lock()
 		r := P.verifyFunc(k, prop == "C11")
 		attachRegions(P, r, kf)
+		// every obligation of a function this property's proof rests on counts
+		// for the property (vacuity covers excepted: they are reported anyway)
+		for _, o := range r.Obls {
+			if !hasProp(o, prop) && o.Kind != "protected" {
+				o.Props = append(o.Props, prop)
+			}
+		}
 		mu.Unlock()
 		results[i] = r
 		if r.Err != "" {
